@@ -1129,6 +1129,8 @@ class Shadow(Family):
   <xs:complexType><xs:sequence>
    <xs:element name="code" type="xs:string" maxOccurs="unbounded"/>
    <xs:element ref="box" minOccurs="0" maxOccurs="unbounded"/>
+   <xs:element name="crate" minOccurs="0" maxOccurs="unbounded"><xs:complexType><xs:sequence>
+     <xs:element name="code" type="xs:string" maxOccurs="unbounded"/></xs:sequence></xs:complexType></xs:element>
   </xs:sequence></xs:complexType>
  </xs:element>
 </xs:schema>'''}
@@ -1139,6 +1141,11 @@ class Shadow(Family):
             Doc('sh-valid-b', _decl() + '<root><code>x</code><box><code>2020-01-01</code></box><box><code>2021-12-31</code><code>2000-02-29</code></box></root>'),
             Doc('sh-bad-box', _decl() + '<root><code>x</code><box><code>12</code></box></root>', 'fault:lexical'),
             Doc('sh-bad-extra', _decl() + '<root><code>x</code><bogus/></root>', 'fault:structure'),
+            # the same tag at the same depth under another parent: a path of child steps must not select it
+            Doc('sh-valid-crate', _decl() + '<root><code>x</code><box><code>2020-01-01</code></box><crate><code>not a date</code>'
+                '<code>12</code></crate><crate><code>z</code></crate></root>'),
+            Doc('sh-bad-crate-box', _decl() + '<root><code>x</code><box><code>tomorrow</code></box><crate><code>2020-01-01</code>'
+                '</crate></root>', 'fault:lexical'),
         ]
 
 
